@@ -402,6 +402,17 @@ type stepper struct {
 	cattr         map[string]any
 	oattr         map[string]any
 	resolverCalls []string
+
+	// journal of the whole behaviour: every invocation of the resolver, with the
+	// principal the request in flight was authenticated as and the (virtual)
+	// instant. "Introspections per caller per window" is counted from it.
+	t0      time.Time
+	journal []invocation
+}
+
+type invocation struct {
+	principal string
+	at        time.Time
 }
 
 type response struct {
@@ -461,6 +472,8 @@ func (s *stepper) authenticate(r *http.Request) (*vgirpc.AuthContext, error) {
 
 func (s *stepper) resolve(credential string) (vgirpc.TokenIdentity, bool, error) {
 	s.resolverCalls = append(s.resolverCalls, credential)
+	s.journal = append(s.journal, invocation{
+		principal: s.principalOf(replay.Str(s.cattr, "prin")), at: time.Now()})
 	o := s.oattr
 	id := vgirpc.TokenIdentity{}
 	ok := replay.Bool(o, "ok")
@@ -530,6 +543,8 @@ func (s *stepper) Begin(b replay.Behaviour, rng *rand.Rand) error {
 	}
 	// a behaviour never starts exactly where the previous one stopped
 	time.Sleep(time.Duration(1+rng.Intn(5000)) * time.Millisecond)
+	s.t0 = time.Now()
+	s.journal = nil
 	return ensureRefs()
 }
 
@@ -684,6 +699,21 @@ func (s *stepper) Step(i int, st replay.Step) (replay.Obs, error) {
 	obs["read_x"] = rsp.reads > 0
 	obs["limited"] = rsp.code == http.StatusTooManyRequests
 	obs["resolver"] = len(s.resolverCalls)
+	// introspections of this caller in the window the request falls in: resolver
+	// invocations journalled for its principal since the window's first instant
+	// (args.win_start, in ticks since the behaviour began), this request included,
+	// whatever the resolver answered each time.
+	if _, ok := st.Args["win_start"]; ok {
+		from := s.t0.Add(time.Duration(replay.Int(st.Args, "win_start")) * s.unit)
+		me := s.principalOf(replay.Str(s.cattr, "prin"))
+		runs := 0
+		for _, inv := range s.journal {
+			if inv.principal == me && !inv.at.Before(from) {
+				runs++
+			}
+		}
+		obs["runs"] = runs
+	}
 	obs["adv"] = rsp.header.Get(vgirpc.IntrospectEnabledHeader) == "true"
 	obs["retry_after"] = rsp.header.Get("Retry-After")
 
